@@ -32,6 +32,16 @@ var GNPool = []GNPoolEntry{
 	{"dns-leading-dot", func() *der.Node { return GNDNS(".example.com") }},
 	{"dns-long-label", func() *der.Node { return GNDNS(strings.Repeat("a", 64) + ".example.com") }},
 	{"dns-63-label", func() *der.Node { return GNDNS(strings.Repeat("a", 63) + ".example.com") }},
+	{"dns-64-last-label", func() *der.Node { return GNDNS("www.example." + strings.Repeat("a", 64)) }},
+	{"dns-63-last-label", func() *der.Node { return GNDNS("www.example." + strings.Repeat("a", 63)) }},
+	{"dns-65-last-label", func() *der.Node { return GNDNS("www.example." + strings.Repeat("a", 65)) }},
+	{"dns-64-only-label", func() *der.Node { return GNDNS(strings.Repeat("b", 64)) }},
+	{"dns-63-only-label", func() *der.Node { return GNDNS(strings.Repeat("b", 63)) }},
+	{"dns-64-middle-label", func() *der.Node { return GNDNS("www." + strings.Repeat("c", 64) + ".com") }},
+	{"dns-wildcard-64", func() *der.Node { return GNDNS("*." + strings.Repeat("d", 64)) }},
+	{"dns-empty-last-label-64", func() *der.Node { return GNDNS(strings.Repeat("e", 64) + ".") }},
+	{"dns-hyphen-only-sld", func() *der.Node { return GNDNS("www.-.com") }},
+	{"dns-underscore-only", func() *der.Node { return GNDNS("_.example.com") }},
 	{"dns-too-long", func() *der.Node { return GNDNS(strings.Repeat("abcdefgh.", 30) + "example.com") }},
 	{"dns-unparseable-suffix", func() *der.Node { return GNDNS("com") }},
 	{"dns-bare-suffix", func() *der.Node { return GNDNS("co.uk") }},
@@ -131,4 +141,15 @@ func (s *Spec) RemoveExt(oid string) *Spec {
 	}
 	s.Exts = keep
 	return s
+}
+
+// DNSPool returns the dNSName entries of the pool.
+func DNSPool() []GNPoolEntry {
+	var out []GNPoolEntry
+	for _, e := range GNPool {
+		if strings.HasPrefix(e.Label, "dns-") {
+			out = append(out, e)
+		}
+	}
+	return out
 }
